@@ -136,12 +136,51 @@ impl C06 {
                     a.sort_by(|x, y| x.0.cmp(&y.0));
                     b.sort_by(|x, y| x.0.cmp(&y.0));
                     let same = a.len() == b.len() && a.iter().zip(b.iter()).all(|(x, y)| x.0 == y.0 && x.1 == y.1 && x.2.to_bits() == y.2.to_bits() && x.3.to_bits() == y.3.to_bits());
-                    out.check(same, "C06", &format!("argument_form_changes_result/{kn}"), || format!("enrichment with (&Ontology|Vec, &HpoSet) differs from (Vec, Vec) for N={nn} n={n}"));
+                    out.check(same, "C06", &format!("argument_form_changes_result/{kn}"), || format!("enrichment with (&Ontology|Vec, &HpoSet) differs from (Vec, Vec) for N={nn} n={n}: {:?} vs {:?}", a.iter().zip(b.iter()).find(|(x, y)| x != y), (a.len(), b.len())));
                     if whole {
                         out.bucket("call_form/ontology_and_set");
                     }
                 } else if let Err(p) = &alt {
                     out.violate("C06", &format!("panic:enrichment_alt_form/{kn}"), format!("N={nn} n={n}: {} at {}", p.message, p.location));
+                }
+            }
+            // ... and with iterator adaptors whose size_hint is not exact (a filtered superset): the
+            // collections are what the iterators yield, not what they announce
+            {
+                let junk: Vec<HpoTerm> = bg.iter().take(3).copied().collect();
+                let in_bg: BTreeSet<u32> = background.iter().copied().collect();
+                let in_sm: BTreeSet<u32> = sample.iter().copied().collect();
+                let mut bg_super: Vec<HpoTerm> = bg.clone();
+                let mut sm_super: Vec<HpoTerm> = sm.clone();
+                // terms of the ontology outside the collection, filtered out again by the adaptor
+                for t in s.ont.hpos() {
+                    if bg_super.len() < bg.len() + 5 && !in_bg.contains(&t.id().as_u32()) {
+                        bg_super.push(t);
+                    }
+                    if sm_super.len() < sm.len() + 5 && !in_sm.contains(&t.id().as_u32()) {
+                        sm_super.push(t);
+                    }
+                }
+                let alt: Result<Vec<(u32, u64, f64, f64)>, _> = guard(|| {
+                    let b = bg_super.iter().copied().filter(|t| in_bg.contains(&t.id().as_u32())).chain(junk.clone().into_iter().filter(|_| false));
+                    let m = sm_super.iter().copied().filter(|t| in_sm.contains(&t.id().as_u32())).chain(junk.clone().into_iter().skip_while(|_| true));
+                    match kind {
+                        0 => gene_enrichment(b, m).iter().map(|e| (e.id().as_u32(), e.count(), e.pvalue(), e.enrichment())).collect(),
+                        1 => omim_disease_enrichment(b, m).iter().map(|e| (e.id().as_u32(), e.count(), e.pvalue(), e.enrichment())).collect(),
+                        _ => orpha_disease_enrichment(b, m).iter().map(|e| (e.id().as_u32(), e.count(), e.pvalue(), e.enrichment())).collect(),
+                    }
+                });
+                bump(&mut out.events, "enrichment(filtered iterators)");
+                out.bucket("call_form/inexact_size_hint");
+                if let (Ok(a), Ok(b)) = (&alt, &res) {
+                    let mut a = a.clone();
+                    let mut b = b.clone();
+                    a.sort_by(|x, y| x.0.cmp(&y.0));
+                    b.sort_by(|x, y| x.0.cmp(&y.0));
+                    let same = a.len() == b.len() && a.iter().zip(b.iter()).all(|(x, y)| x.0 == y.0 && x.1 == y.1 && x.2.to_bits() == y.2.to_bits() && x.3.to_bits() == y.3.to_bits());
+                    out.check(same, "C06", &format!("argument_form_changes_result/{kn}"), || format!("enrichment with filtered iterators (inexact size_hint) differs from (Vec, Vec) for N={nn} n={n}"));
+                } else if let Err(p) = &alt {
+                    out.violate("C06", &format!("panic:enrichment_alt_form/{kn}"), format!("filtered iterators, N={nn} n={n}: {} at {}", p.message, p.location));
                 }
             }
             let res = match res {
@@ -233,6 +272,9 @@ impl Monitor for C06 {
             v.push(format!("pop:{n}"));
         }
         v.push("huge:0".to_string());
+        for i in 0..tier.pick(6, 60) {
+            v.push(format!("deep:{i}"));
+        }
         for n in 2..=tier.pick(12, 24) {
             v.push(format!("lat:{n}"));
         }
@@ -245,7 +287,7 @@ impl Monitor for C06 {
         v
     }
     fn mandatory_buckets(&self, _tier: Tier) -> Vec<String> {
-        ["tuples", "background_above_65536_terms", "ontology_with_obsolete_terms", "population_above_factorial_table", "population_within_factorial_table", "monotonicity_pairs", "background/whole", "background/subcollection", "call_form/ontology_and_set", "lattice_points"]
+        ["tuples", "background_above_65536_terms", "ontology_with_obsolete_terms", "population_above_factorial_table", "population_within_factorial_table", "monotonicity_pairs", "background/whole", "background/subcollection", "call_form/ontology_and_set", "call_form/inexact_size_hint", "deep_lower_tail_and_long_tails", "lattice_points"]
             .iter()
             .map(|s| (*s).to_string())
             .collect()
@@ -374,6 +416,62 @@ impl Monitor for C06 {
                 out.bucket("background/whole");
                 out.sig = hash_u64s(&[0x4096, 1]);
                 out.case = Json::obj().set("kind", Json::s("N=100000 K=50000 n=50000 k=45000 for all three kinds"));
+            }
+            "deep" => {
+                // mid-size populations, frequent annotations, big samples: overlaps from the deep lower
+                // tail (p ~ 1, pmf(k) far below the smallest double) over the mean to the maximum; tails
+                // of several hundred terms with real mass in the middle
+                let n_terms = [1000usize, 3200, 700, 2000, 420, 5000][idx % 6];
+                let mut f = FactSet::default();
+                for i in 1..=n_terms as u32 {
+                    f.terms.push(TermFact { id: i, name: format!("t{i}"), obsolete: false, replaced_by: None });
+                }
+                let fracs = [0.47, 0.5, 0.31];
+                for k in 0..3 {
+                    let kk = ((n_terms as f64) * fracs[(k + idx) % 3]) as u32 - rng.range(0, 9) as u32;
+                    // record of kind k covers terms 1..=kk
+                    f.recs[k].push(RecFact { id: 5 + k as u32, name: format!("frequent{k}"), terms: (1..=kk).collect() });
+                    f.recs[k].push(RecFact { id: 50 + k as u32, name: format!("rare{k}"), terms: vec![n_terms as u32] });
+                }
+                let kind = idx % 3;
+                let kk = f.recs[kind][0].terms.len();
+                let s = match build(f) {
+                    Ok(s) => s,
+                    Err(e) => {
+                        out.violate("C06", "construct_failed", e);
+                        return out;
+                    }
+                };
+                let all: Vec<u32> = (1..=n_terms as u32).collect();
+                let others = n_terms - kk;
+                let n_hi = ((n_terms as f64 * 0.45) as usize).min(others);
+                let n = rng.urange((n_terms as f64 * 0.35) as usize, n_hi);
+                let kmin = n.saturating_sub(others).max(1);
+                let kmax = kk.min(n);
+                let mean = n * kk / n_terms;
+                let mut ks: BTreeSet<usize> = BTreeSet::new();
+                for k in [kmin, kmin + 1, kmin + 2, kmin + 39, mean / 2, mean.saturating_sub(60), mean.saturating_sub(20), mean, mean + 15, mean + 70, kmax - 1, kmax] {
+                    if k >= kmin && k <= kmax {
+                        ks.insert(k);
+                    }
+                }
+                for k in &ks {
+                    // exactly k of the frequent record's terms and n-k of the others
+                    let mut sample: Vec<u32> = (1..=*k as u32).collect();
+                    sample.extend((kk as u32 + 1)..(kk as u32 + 1 + (n - k) as u32));
+                    // keep the rare record out of the way of the count
+                    sample.retain(|t| *t != n_terms as u32);
+                    self.check_call(&s, &all, &sample, &mut out, &mut pvals);
+                }
+                out.bucket("background/whole");
+                out.bucket("deep_lower_tail_and_long_tails");
+                out.sig = hash_u64s(&[0xdee9, idx as u64, n as u64]);
+                out.case = Json::obj()
+                    .set("kind", Json::s("deep tails"))
+                    .set("N", Json::us(n_terms))
+                    .set("K", Json::us(kk))
+                    .set("n", Json::us(n))
+                    .set("k_values", Json::Arr(ks.iter().map(|k| Json::us(*k)).collect()));
             }
             "mono" | "pop" | "rnd" => {
                 let n_terms = match parts[0] {
